@@ -358,19 +358,47 @@ Definition final (cs : case) : option (cfg * mst * list nat) :=
       end
   end.
 
+(* ---- the basic monitor: the conjuncts that need no specification state -------------
+   Per macro step, with [now'] the script clock after the step's event: no TaskDied; every
+   completion carries now'; no caller completes twice in the step; every batch is
+   non-empty, carries no key twice and does not start in the script's future.
+   Proved sound AND complete (Case_Batcher_Basic.v: it accepts every trace of the model,
+   for all event lists).  It is a conjunct of all three monitors below. *)
+Definition start_basic (now' : N) (st : nat * list (nat * nat) * N) : bool :=
+  let '(b, items, t) := st in (1 <=? length items) && nodup_nat (map fst items) && (t <=? now')%N.
+
+Fixpoint basic_run (now : N) (evs : list event) (observed : list (list obs)) : bool :=
+  match evs, observed with
+  | [], [] => true
+  | e :: er, os :: or =>
+      let now' := match e with Advance dt => (now + dt)%N | _ => now end in
+      negb (existsb is_died os)
+      && forallb (fun d => N.eqb (snd d) now') (dones_of os)
+      && nodup_nat (map (fun d => fst (fst d)) (dones_of os))
+      && forallb (start_basic now') (starts_of os)
+      && basic_run now' er or
+  | _, _ => false
+  end.
+
+Definition ok_basic (cs : case) : bool :=
+  match cs with BCase c evs observed _ => basic_run 0%N evs observed end.
+
 Definition ok_C04 (cs : case) : bool :=
+  ok_basic cs &&
   match final cs with
   | Some (c, m, w) => negb (m_bad04 m) && end_ok04 c m w
   | None => false
   end.
 
 Definition ok_C10 (cs : case) : bool :=
+  ok_basic cs &&
   match final cs with
   | Some (c, m, w) => negb (m_bad10 m) && end_ok10 c m
   | None => false
   end.
 
 Definition ok_C11 (cs : case) : bool :=
+  ok_basic cs &&
   match final cs with
   | Some (c, m, w) => negb (m_bad11 m)
   | None => false
